@@ -321,7 +321,7 @@ func (f *Filter) Walk(rest, path Expr, nodes []any, cb func(path Expr, nodes []a
 	switch tv := data.(type) {
 	case []any:
 		for i, v := range tv {
-			if f.Match(v) {
+			if f.matchWithRoot(v, nodes[0]) {
 				path[len(path)-1] = Nth(i)
 				nodes[len(nodes)-1] = v
 				if 0 < len(rest) {
@@ -335,7 +335,7 @@ func (f *Filter) Walk(rest, path Expr, nodes []any, cb func(path Expr, nodes []a
 		size := tv.Size()
 		for i := 0; i < size; i++ {
 			v := tv.ValueAtIndex(i)
-			if f.Match(v) {
+			if f.matchWithRoot(v, nodes[0]) {
 				path[len(path)-1] = Nth(i)
 				nodes[len(nodes)-1] = v
 				if 0 < len(rest) {
@@ -347,7 +347,7 @@ func (f *Filter) Walk(rest, path Expr, nodes []any, cb func(path Expr, nodes []a
 		}
 	case gen.Array:
 		for i, v := range tv {
-			if f.Match(v) {
+			if f.matchWithRoot(v, nodes[0]) {
 				path[len(path)-1] = Nth(i)
 				nodes[len(nodes)-1] = v
 				if 0 < len(rest) {
@@ -365,7 +365,7 @@ func (f *Filter) Walk(rest, path Expr, nodes []any, cb func(path Expr, nodes []a
 			}
 			sort.Strings(keys)
 			for _, k := range keys {
-				if f.Match(tv[k]) {
+				if f.matchWithRoot(tv[k], nodes[0]) {
 					path[len(path)-1] = Child(k)
 					nodes[len(nodes)-1] = tv[k]
 					if 0 < len(rest) {
@@ -384,7 +384,7 @@ func (f *Filter) Walk(rest, path Expr, nodes []any, cb func(path Expr, nodes []a
 			}
 			sort.Strings(keys)
 			for _, k := range keys {
-				if f.Match(tv[k]) {
+				if f.matchWithRoot(tv[k], nodes[0]) {
 					path[len(path)-1] = Child(k)
 					nodes[len(nodes)-1] = tv[k]
 					if 0 < len(rest) {
@@ -400,7 +400,7 @@ func (f *Filter) Walk(rest, path Expr, nodes []any, cb func(path Expr, nodes []a
 		sort.Strings(keys)
 		for _, key := range keys {
 			v, _ := tv.ValueForKey(key)
-			if f.Match(v) {
+			if f.matchWithRoot(v, nodes[0]) {
 				path[len(path)-1] = Child(key)
 				nodes[len(nodes)-1] = v
 				if 0 < len(rest) {
@@ -412,12 +412,32 @@ func (f *Filter) Walk(rest, path Expr, nodes []any, cb func(path Expr, nodes []a
 		}
 	default:
 		rv := reflect.ValueOf(tv)
+		if rv.Kind() == reflect.Ptr && !rv.IsNil() {
+			rv = rv.Elem()
+		}
 		switch rv.Kind() {
-		case reflect.Slice:
+		case reflect.Struct:
+			for i := 0; i < rv.NumField(); i++ {
+				fv := rv.Field(i)
+				if !fv.CanInterface() {
+					continue
+				}
+				v := fv.Interface()
+				if f.matchWithRoot(v, nodes[0]) {
+					path[len(path)-1] = Child(rv.Type().Field(i).Name)
+					nodes[len(nodes)-1] = v
+					if 0 < len(rest) {
+						rest[0].Walk(rest[1:], path, nodes, cb)
+					} else {
+						cb(path, nodes)
+					}
+				}
+			}
+		case reflect.Slice, reflect.Array:
 			cnt := rv.Len()
 			for i := 0; i < cnt; i++ {
 				v := rv.Index(i).Interface()
-				if f.Match(v) {
+				if f.matchWithRoot(v, nodes[0]) {
 					path[len(path)-1] = Nth(i)
 					nodes[len(nodes)-1] = v
 					if 0 < len(rest) {
@@ -435,7 +455,7 @@ func (f *Filter) Walk(rest, path Expr, nodes []any, cb func(path Expr, nodes []a
 			for _, k := range keys {
 				mv := rv.MapIndex(k)
 				v := mv.Interface()
-				if f.Match(v) {
+				if f.matchWithRoot(v, nodes[0]) {
 					path[len(path)-1] = Child(k.String())
 					nodes[len(nodes)-1] = v
 					if 0 < len(rest) {
